@@ -452,3 +452,27 @@ pub fn two_sec_fx() -> Alphabet {
     }
     Alphabet::new("two-sec-fx", evs, Rules::STRICT)
 }
+
+/// `nano`: share counts with nine and ten decimal places. After the same-day and 30-day steps a sale is left with a
+/// remainder of a billionth of a share or less for the pool; a sale of a billionth of a share; a sale exceeding the
+/// holding by two ten-billionths. Every running share count is a finite decimal, so the exactness clauses apply.
+pub fn nano() -> Alphabet {
+    let b = base();
+    let mut evs: Vec<Transaction> = vec![];
+    evs.push(buy(off(b, -40), "X", "10", "10", "1"));
+    evs.push(buy(off(b, -40), "X", "0.000000001", "10", "0"));
+    evs.push(buy(off(b, 0), "X", "10", "11", "0"));
+    evs.push(sell(off(b, 0), "X", "10.0000000005", "20", "1"));
+    evs.push(sell(off(b, 1), "X", "0.000000001", "21", "0"));
+    evs.push(sell(off(b, 1), "X", "0.0000000003", "21", "0"));
+    evs.push(sell(off(b, 2), "X", "5.0000000003", "22", "0.5"));
+    evs.push(sell(off(b, 2), "X", "20.0000000002", "22", "0"));
+    evs.push(buy(off(b, 30), "X", "5", "12", "0"));
+    evs.push(buy(off(b, 30), "X", "0.0000000007", "12", "0"));
+    evs.push(sell(off(b, 31), "X", "1", "23", "0"));
+    evs.push(sell(off(b, 32), "X", "9.9999999995", "23", "0"));
+    let mut rules = Rules::STRICT;
+    rules.one_sell = false;
+    rules.one_buy = false;
+    Alphabet::new("nano", evs, rules)
+}
